@@ -114,6 +114,12 @@ class RootScope:
             return self.is_const_expr(expr.a) and self.is_const_expr(expr.b)
         elif isinstance(expr, expressions.UnaryOperator):
             return self.is_const_expr(expr.a)
+        elif isinstance(expr, expressions.TernaryOperator):
+            return (
+                self.is_const_expr(expr.a)
+                and self.is_const_expr(expr.b)
+                and self.is_const_expr(expr.c)
+            )
         elif isinstance(expr, expressions.NumericLiteral):
             return True
         elif isinstance(expr, expressions.CharLiteral):
